@@ -398,12 +398,18 @@ class AsyncInotifyWrapper:
                         path = paths.pop(0)
                         if path not in self.watches:
                             continue
-                        if self.watches[path] is None:
-                            # When a directory is added that was once watched,
-                            # recreate the watch right away.
-                            self._install_watch(path)
+                        try:
+                            if self.watches[path] is None:
+                                # When a directory is added that was once watched,
+                                # recreate the watch right away.
+                                self._install_watch(path)
+                            sub_paths = list(path.iterdir())
+                        except (FileNotFoundError, NotADirectoryError):
+                            # The directory is gone again by the time its event is handled here.
+                            # The watch stays pending, until an event reports that it reappears.
+                            continue
                         # Events of files created in this directory may have been missed.
-                        for sub_path in path.iterdir():
+                        for sub_path in sub_paths:
                             if sub_path.is_file():
                                 self.change_queue.put_nowait((Change.UPDATED, sub_path))
                             elif sub_path.is_dir():
